@@ -86,9 +86,71 @@ def _call(args):
         return {"__died__": True}
 
 
-def pmap(fn, items, chunksize=None, procs=None, timeout=None):
+def _call_batch(batch):
+    """Run a batch of items in forked children, one child for as many items as it survives: the child
+    streams one result per item; when it exceeds the per-item time limit or dies, that item gets the
+    verdict and a new child carries on with the rest."""
+    import pickle, select, signal, struct
+    results = []
+    todo = list(batch)
+    while todo:
+        r, w = os.pipe()
+        pid = os.fork()
+        if pid == 0:
+            try:
+                os.close(r)
+                with os.fdopen(w, "wb") as f:
+                    for args in todo:
+                        data = pickle.dumps(_call_plain(args))
+                        f.write(struct.pack("<Q", len(data)) + data)
+                        f.flush()
+            finally:
+                os._exit(0)
+        os.close(w)
+        buf = b""
+        got = 0
+        verdict = None
+        deadline = time.time() + _POOL_TIMEOUT
+        with os.fdopen(r, "rb") as f:
+            while got < len(todo):
+                left = deadline - time.time()
+                if left <= 0:
+                    verdict = {"__timeout__": True}
+                    break
+                ready, _, _ = select.select([f], [], [], min(left, 5.0))
+                if not ready:
+                    continue
+                b = f.read1(1 << 20)
+                if not b:
+                    verdict = {"__died__": True}
+                    break
+                buf += b
+                while len(buf) >= 8:
+                    n = struct.unpack("<Q", buf[:8])[0]
+                    if len(buf) < 8 + n:
+                        break
+                    results.append(pickle.loads(buf[8:8 + n]))
+                    buf = buf[8 + n:]
+                    got += 1
+                    deadline = time.time() + _POOL_TIMEOUT
+        if verdict is not None:
+            try:
+                os.kill(pid, signal.SIGKILL)
+            except OSError:
+                pass
+        os.waitpid(pid, 0)
+        if verdict is None:
+            break
+        results.append(verdict)
+        todo = todo[got + 1:]
+    return results
+
+
+def pmap(fn, items, chunksize=None, procs=None, timeout=None, batch=None):
     """Fork-based parallel map; fn must be a module-level function.  With `timeout` (seconds per
-    item) a result may be {"__timeout__": True} or {"__died__": True}."""
+    item) a result may be {"__timeout__": True} or {"__died__": True}.  With `batch` as well, up to
+    that many items share one killable child (cheap items: one fork per batch instead of one per item;
+    items then see the process state their predecessors in the batch left behind)."""
     global _POOL_FN, _POOL_TIMEOUT
     items = list(items)
     if not items:
@@ -96,6 +158,18 @@ def pmap(fn, items, chunksize=None, procs=None, timeout=None):
     procs = min(procs or common.NCPU, len(items))
     _POOL_FN = fn
     _POOL_TIMEOUT = timeout
+    if timeout and batch and batch > 1:
+        batches = [items[i:i + batch] for i in range(0, len(items), batch)]
+        ctx = mp.get_context("fork")
+        with ctx.Pool(min(procs, len(batches))) as pool:
+            out = pool.map(_call_batch, batches, chunksize=1)
+        res = [r for b in out for r in b]
+        if len(res) != len(items):
+            raise MachineryError("batched map lost results: %d of %d" % (len(res), len(items)))
+        for r in res:
+            if isinstance(r, dict) and "__worker_error__" in r:
+                raise MachineryError("worker failed:\n" + r["__worker_error__"])
+        return res
     if procs <= 1:
         res = [_call(x) for x in items]
     else:
